@@ -73,11 +73,15 @@ class _FieldOfDressed:
 
             dressed_new._movable = False
 
-            # Copy the python data (changes also dressed_new._xobject)
+            # Copy the python data (changes also dressed_new._xobject
+            # and the dressed versions of its nested objects)
             dressed_new.__dict__.update(value.__dict__)
 
-            # Restore correct _xobject
-            dressed_new._xobject = getattr(container._xobject, self.name)
+            # Restore correct _xobject and dress again the nested objects,
+            # which would otherwise keep living in the storage of `value`
+            dressed_new._reinit_from_xobject(
+                _xobject=getattr(container._xobject, self.name)
+            )
         else:
             self.content = None
             setattr(container._xobject, self.name, value)
